@@ -178,3 +178,57 @@ func oracleC04ChangeRoundTrip(c Change) {
 	again, err := xml.Marshal(back)
 	vAssert(err == nil && string(again) == string(data))
 }
+
+// C04, augmented diffs: an action with any combination of its inline element
+// block, old block and new block present marshals to XML that reads back with
+// the same blocks present and the same element counts.
+//
+//@ func oracleC04DiffRoundTrip
+//@   props C04
+//@   oracle
+//@   covers osm.Action
+//@   covers osm.marshalInnerChange
+func oracleC04DiffRoundTrip(kind int, hasOld bool, hasNew bool, inline bool, n int) {
+	if n < 0 {
+		n = -(n + 1)
+	}
+	mk := func(k int) *OSM {
+		o := &OSM{}
+		for i := 0; i <= k%3; i++ {
+			o.Nodes = append(o.Nodes, &Node{ID: NodeID(10*k + i + 1), Version: 1, Visible: true})
+		}
+		return o
+	}
+	types := []ActionType{ActionCreate, ActionModify, ActionDelete}
+	if kind < 0 {
+		kind = -(kind + 1)
+	}
+	a := Action{Type: types[kind%3]}
+	if inline {
+		a.OSM = mk(n)
+	}
+	if hasOld {
+		a.Old = mk(n + 1)
+	}
+	if hasNew {
+		a.New = mk(n + 2)
+	}
+	d := Diff{Actions: []Action{a}}
+	data, err := xml.Marshal(d)
+	vAssert(err == nil)
+	var back Diff
+	vAssert(xml.Unmarshal(data, &back) == nil)
+	vAssert(len(back.Actions) == 1)
+	if len(back.Actions) != 1 {
+		return
+	}
+	b := back.Actions[0]
+	vAssert(b.Type == a.Type)
+	vAssert((b.Old != nil) == hasOld && (b.New != nil) == hasNew)
+	if hasOld && b.Old != nil {
+		vAssert(len(b.Old.Nodes) == len(a.Old.Nodes))
+	}
+	if hasNew && b.New != nil {
+		vAssert(len(b.New.Nodes) == len(a.New.Nodes))
+	}
+}
